@@ -37,12 +37,12 @@ def BRel (tbl : Table) (fs : FlagMap) (inpW : Bytes) (δ d skip : Nat) (ms mw : 
 
 /-- both runs made the same step. `eoi`: a common break (`endOfInput` in both runs) is an allowed outcome;
 it then relates the two re-based machines in the frame of the remaining text debt. -/
-def LockOut (tbl : Table) (fs : FlagMap) (inpW : Bytes) (δ : Nat) (K : Nat → κ → κ → Prop) (Loc : κ → Nat → Prop)
+def LockOut (tbl : Table) (fs : FlagMap) (inpW : Bytes) (δ : Nat) (K : Nat → κ → κ → Prop) (Loc : κ → Nat → Nat → TextType → Prop)
     (eoi : Bool) (rs rw : M κ × Option Signal) : Prop :=
   SPanic rs.2 ∨
   (match rs.2, rw.2 with
    | none, none => ∃ d', BRel tbl fs inpW δ d' 0 rs.1 rw.1 ∧ K d' rs.1.x.sink rw.1.x.sink ∧
-       (0 < d' → Loc rs.1.x.sink (lexStart rs.1.r))
+       (0 < d' → Loc rs.1.x.sink rs.1.x.prevConsumed (lexStart rs.1.r) rs.1.c.lastTextType)
    | some (.endOfInput c), some (.endOfInput c') =>
        eoi = true ∧ ∃ d', c' + d' = c + δ ∧ K d' rs.1.x.sink rw.1.x.sink ∧ rw.1.x.sim = rs.1.x.sim ∧
          rs.1.x.prevConsumed = rw.1.x.prevConsumed + δ ∧
@@ -158,7 +158,7 @@ theorem StepCtx.of_cfix {tbl : Table} {fs : FlagMap} {st : StateId} {sd : StateD
   ⟨cx.look, cx.ok, cx.wf, by rw [h.2.2.1]; exact cx.st_eq, by rw [h.2.2.2]; exact cx.ent⟩
 
 section
-variable {env : Env κ} {inpS inpW : Bytes} {δ : Nat} {K : Nat → κ → κ → Prop} {Loc : κ → Nat → Prop}
+variable {env : Env κ} {inpS inpW : Bytes} {δ : Nat} {K : Nat → κ → κ → Prop} {Loc : κ → Nat → Nat → TextType → Prop}
 
 /-- the flags valid at the entry of a state, as the boundary relation wants them -/
 theorem flagsOf_entry {tbl : Table} {fs : FlagMap} (hwf : WfChunkWith tbl fs = true) (c : Common) (he : c.entered = false) :
@@ -290,7 +290,7 @@ theorem advLeave_sim {δ d : Nat} {ab : Ab} {sm : SeqMode} {ms mw : M κ} (h : M
                         fun t ht => Nat.le_trans ((h3.p g).2 t ht) (Nat.le_add_right _ _)⟩ }
 
 section
-variable {env : Env κ} {inpS inpW : Bytes} {δ : Nat} {K : Nat → κ → κ → Prop} {Loc : κ → Nat → Prop}
+variable {env : Env κ} {inpS inpW : Bytes} {δ : Nat} {K : Nat → κ → κ → Prop} {Loc : κ → Nat → Nat → TextType → Prop}
 
 /-- the first comparison + look-ahead of a sequence arm -/
 def firstOf (inp : Bytes) (ch : Option UInt8) (e0 : UInt8) (es : List UInt8) (ic il : Bool) (np : Nat) : SeqMatch :=
@@ -326,7 +326,7 @@ theorem first_sim (F : Frame inpS inpW δ) (ch : Option UInt8) (e0 : UInt8) (es 
 end
 
 section
-variable {env : Env κ} {inpS inpW : Bytes} {δ : Nat} {K : Nat → κ → κ → Prop} {Loc : κ → Nat → Prop}
+variable {env : Env κ} {inpS inpW : Bytes} {δ : Nat} {K : Nat → κ → κ → Prop} {Loc : κ → Nat → Nat → TextType → Prop}
 
 theorem chSeqOf_none_of_rel {δ d skip : Nat} {ab : Ab} {ms mw : M κ} (h : MRel δ d skip ab .none ms mw) :
     chSeqOf ms.r = none ∧ chSeqOf mw.r = none := by
